@@ -178,7 +178,7 @@ func init() {
 	registerProp(&propDef{ID: "C02", Rules: rulesC02, Floor: 40,
 		Expl: "Partial: (W3) every constant width that reaches the n-bit range primitive through the static call graph is a multiple of the commit checker's base width, the only configuration-dependent width is 64 − ProofOfWorkBits and it is a positive multiple of 16 for every common_circuit_data.json in the repository (else commit-based builds panic in the deferred drain); (dispatch) C06's obligations — no backend skips or mis-selects checks, so the verdict cannot depend on the backend through a dropped constraint; (W2) honest fit by the magnitude analysis (abstract interpretation of the gadget layer over upper bounds, context-sensitive, constant-propagating loop counters): in every context reaching a reduction the value is below p·2^n for the quotient width in force, every operand reaching MulAdd / Inverse is canonical (the hints refuse larger ones), no intermediate value reaches the BN254 field, and upper-layer functions exchange canonical values only — for every configuration and proof shape, under the stated input assumption (proof data and constants canonical); (sponge) a partial last chunk keeps the previous lanes, as needed for the 97-input circuit. Acceptance of concrete proofs (the algebraic identities themselves) is not decided.",
 		Rule: "one obligation per width reaching the range primitive, per circuit description, per C06 rule, per reduction / hint-operand site (worst case over contexts), per package for the interface invariant"})
-	registerProp(&propDef{ID: "C10", Rules: func(cx *Ctx) []Obligation { return append(rulesC10(cx), rulesMulAcc(cx, "C10", "poseidon")...) }, Floor: 8,
+	registerProp(&propDef{ID: "C10", Rules: func(cx *Ctx) []Obligation { return append(append(rulesC10(cx), rulesMulAcc(cx, "C10", "poseidon")...), ruleNoEmptyLimb(cx)...) }, Floor: 9,
 		Expl: "Narrow structural clauses only — the injectivity half of C10: in HashNoPad and HashOrNoop the limbs are packed by a loop accumulator acc' = acc + limb_k·base^k (recurrence extracted from the SSA phi; base a compile-time constant ≥ 2^64; exponent = the limb's own index; number of limbs per element bounded — by the slice bounds lo+c / min(_, lo+c) or by a dominating len(input) ≤ c — with base^T ≤ r), and ToVec splits the canonical bit decomposition (no explicit width) into consecutive disjoint chunks of ≤ 63 bits. Plus the MulAcc accumulator discipline (MA) at every MulAcc site of the poseidon package (BN254 permutation, packing): the accumulator is owned and dead after the call, so the computed hash does not depend on the R1CS builder re-using storage. Agreement of the BN254 Poseidon permutation, sponge and shortcut with the reference PoseidonBN128 for all inputs is numeric and not decided.",
 		Rule: "one obligation per packing accumulator, for the chunking, and per MulAcc site"})
 	registerProp(&propDef{ID: "C15", Rules: rulesC15, Floor: 8,
